@@ -235,6 +235,11 @@ func (db *DB) writeLocked(batch, ourBatch *Batch, merge, sync bool) error {
 
 	// Write journal.
 	if err := db.writeJournal(batches, seq, sync); err != nil {
+		// The record may have reached the journal file nevertheless (e.g. a
+		// failed Sync): its sequence numbers must never be used again, or
+		// the next acknowledged write would be skipped as a duplicate
+		// when the journal is replayed.
+		db.addSeq(uint64(batchesLen(batches)))
 		verifTrace(db.s, "w:journal", int64(seq), int64(batchesLen(batches)), verifB(sync), 1)
 		db.unlockWrite(overflow, merged, err)
 		return err
